@@ -1087,6 +1087,10 @@ def gen_C10(r, n):
         if k == 2:
             return (float(r.rng(-8, 8)), 0.0)
         return tf_in(r, -300, 300)
+    for k_ in ('TAU', 'LOG10_2', 'LOG2_10'):     # FloatConst methods that have provided defaults in num_traits
+        gid += 1
+        c.add('tr.FloatConst.%s' % k_, group=(gid, 'trait', 'FloatConst::' + k_), role='form', impl_only=True)
+        c.add('consts.%s' % k_, group=(gid, 'trait', 'FloatConst::' + k_), role='form')
     fixed = [((1.7976931348623157e308, 0.0), (-3 * 2.0 ** 970, 0.0)), ((1.7976931348623157e308, 0.0), (3 * 2.0 ** 970, 0.0))]     # |hi| = f64::MAX: spurious overflow inside 2Sum (known finding)
     for it in range(n + len(fixed)):
         a, b = fixed[it - n] if it >= n else (operand(), operand())
